@@ -175,4 +175,106 @@ theorem discoverProviderMetadata_refines (url : Go.Str) (hcl : Go.HTTPClient) (l
   | some d => exact ⟨none, by simp, by simp⟩
   | none => exact ⟨_, rfl, by simp⟩
 
+/-! ## metadata_cache.go `MetadataCache` as translated: the cached document and its hourly refresh -/
+
+theorem isCacheValid_eq (now : Int) (c : Go.MetaCache) :
+    Code.MetadataCache_isCacheValid now c = (c.metadata.isSome && decide (now < c.expiresAt)) := rfl
+
+/-- `Cleanup` drops the document only once it has expired (strictly after `expiresAt`) -/
+theorem Cleanup_eq (now : Int) (c : Go.MetaCache) :
+    Code.MetadataCache_Cleanup now c = if c.metadata.isSome ∧ c.expiresAt < now then { c with metadata := none } else c := by
+  unfold Code.MetadataCache_Cleanup Go.timeAfter
+  by_cases h1 : c.metadata.isSome = true <;> by_cases h2 : c.expiresAt < now <;> simp [h1, h2]
+
+/-- ... so the clean-up goroutine never changes whether a later lookup is served from the cache -/
+theorem Cleanup_transparent (now later : Int) (c : Go.MetaCache) (h : now ≤ later) :
+    Code.MetadataCache_isCacheValid later (Code.MetadataCache_Cleanup now c) = Code.MetadataCache_isCacheValid later c := by
+  rw [Cleanup_eq, isCacheValid_eq, isCacheValid_eq]
+  by_cases h1 : c.metadata.isSome = true <;> by_cases h2 : c.expiresAt < now
+  · have : ¬ later < c.expiresAt := fun hl => Int.lt_irrefl _ (Int.lt_trans hl (Int.lt_of_lt_of_le h2 h))
+    simp [h1, h2, this]
+  · simp [h1, h2]
+  · simp [h1]
+  · simp [h1]
+
+/-- **`GetMetadata` with a document in the cache is the model's refresh tick.**  While `now < expiresAt` the cached document is
+    returned, the provider is not contacted and nothing changes; afterwards one discovery round runs: a healthy answer replaces the
+    document and is good for one hour from the end of the round, a failed round keeps the old document for five more minutes — the
+    instant, the rest of the script and the new cache state are `Oidc.Discovery.refreshTick`'s. -/
+theorem GetMetadata_refines (url : Go.Str) (hcl : Go.HTTPClient) (l : Go.Logger) (c : Go.MetaCache) (d0 : Nat)
+    (hc : c.metadata = some ⟨d0⟩) (script : List (Outcome Nat)) (t : Int) (fuel : Nat) (hf : 6 ≤ fuel) (hlen : 5 ≤ script.length)
+    (hd : ∀ o ∈ script, 0 ≤ durOf o ∧ durOf o ≤ 15000000000) :
+    let r := refreshTick codeDF Go.Hour (5 * Go.Minute) ⟨d0, c.expiresAt⟩ t script
+    let tEnd := if t < c.expiresAt then t else (round codeDF script t 0).1
+    Code.MetadataCache_GetMetadata fuel scriptOps c url hcl l (script, t) =
+      some (((some ⟨r.1.doc⟩, none), ⟨some ⟨r.1.doc⟩, r.1.expires⟩), (r.2.1, tEnd)) := by
+  intro r tEnd
+  unfold Code.MetadataCache_GetMetadata
+  simp only [isCacheValid_eq, hc, Option.isSome_some, Bool.true_and]
+  have hclock : scriptOps.clock (script, t) = t := rfl
+  simp only [hclock]
+  by_cases hv : t < c.expiresAt
+  · have hr : r = (⟨d0, c.expiresAt⟩, script, []) := by
+      show refreshTick codeDF Go.Hour (5 * Go.Minute) ⟨d0, c.expiresAt⟩ t script = _
+      unfold refreshTick; simp [hv]
+    have ht : tEnd = t := by show (if t < c.expiresAt then t else _) = t; simp [hv]
+    simp only [hv, decide_true, if_true, hr, ht]
+    obtain ⟨m, e⟩ := c
+    simp only at hc
+    subst hc
+    rfl
+  · obtain ⟨err, hcode, herr⟩ := discoverProviderMetadata_refines url hcl l script t fuel hf hlen hd
+    have ht : tEnd = (round codeDF script t 0).1 := by show (if t < c.expiresAt then t else _) = _; simp [hv]
+    simp only [hv, decide_false, Bool.false_eq_true, if_false, hcode, ht]
+    cases hdoc : (round codeDF script t 0).2.1 with
+    | some d =>
+      have hr : r = (⟨d, (round codeDF script t 0).1 + Go.Hour⟩, (round codeDF script t 0).2.2.1, (round codeDF script t 0).2.2.2) := by
+        show refreshTick codeDF Go.Hour (5 * Go.Minute) ⟨d0, c.expiresAt⟩ t script = _
+        unfold refreshTick; simp [hv, hdoc]
+      rw [hdoc] at herr
+      have he : err = none := by cases err <;> simp_all
+      subst he
+      simp only [hr, Option.map_some, Option.isSome_none, Bool.false_eq_true, if_false]
+      show some _ = some _
+      simp [Go.timeAdd, scriptOps]
+    | none =>
+      have hr : r = (⟨d0, (round codeDF script t 0).1 + 5 * Go.Minute⟩, (round codeDF script t 0).2.2.1, (round codeDF script t 0).2.2.2) := by
+        show refreshTick codeDF Go.Hour (5 * Go.Minute) ⟨d0, c.expiresAt⟩ t script = _
+        unfold refreshTick; simp [hv, hdoc]
+      rw [hdoc] at herr
+      have he : err.isSome = true := by cases err <;> simp_all
+      simp only [hr, he, if_true]
+      show some _ = some _
+      simp [Go.timeAdd, scriptOps, hc]
+
+/-- **the first load** (nothing cached): the document of a healthy round, good for one hour from its end; after a failed round an
+    error and an unchanged, still empty cache (the caller, `initializeMetadata`, keeps asking) -/
+theorem GetMetadata_first (url : Go.Str) (hcl : Go.HTTPClient) (l : Go.Logger) (c : Go.MetaCache)
+    (hc : c.metadata = none) (script : List (Outcome Nat)) (t : Int) (fuel : Nat) (hf : 6 ≤ fuel) (hlen : 5 ≤ script.length)
+    (hd : ∀ o ∈ script, 0 ≤ durOf o ∧ durOf o ≤ 15000000000) :
+    let r := round codeDF script t 0
+    ∃ res, Code.MetadataCache_GetMetadata fuel scriptOps c url hcl l (script, t) = some (res, (r.2.2.1, r.1)) ∧
+      match r.2.1 with
+      | some d => res = ((some ⟨d⟩, none), ⟨some ⟨d⟩, r.1 + Go.Hour⟩)
+      | none => res.1.1 = none ∧ res.1.2.isSome = true ∧ res.2 = c := by
+  intro r
+  unfold Code.MetadataCache_GetMetadata
+  simp only [isCacheValid_eq, hc, Option.isSome_none, Bool.false_and, Bool.false_eq_true, if_false]
+  obtain ⟨err, hcode, herr⟩ := discoverProviderMetadata_refines url hcl l script t fuel hf hlen hd
+  simp only [hcode]
+  cases hdoc : (round codeDF script t 0).2.1 with
+  | some d =>
+    rw [hdoc] at herr
+    have he : err = none := by cases err <;> simp_all
+    subst he
+    refine ⟨_, rfl, ?_⟩
+    show _ = _
+    simp [hdoc, Go.timeAdd, scriptOps, r]
+  | none =>
+    rw [hdoc] at herr
+    have he : err.isSome = true := by cases err <;> simp_all
+    simp only [he, if_true, Option.map_none]
+    refine ⟨_, rfl, ?_⟩
+    simp [hdoc, r]
+
 end Oidc.CodeRefine
